@@ -1,8 +1,16 @@
 """Per-property claims rendered into MANIFEST.json by tools/mkmanifest.py."""
 HOOK_COMMITS = []   # no source hooks needed so far
-FIX_COMMITS = ["1bcbbe1 fix: rewrite logic sends the new line ... (C01)", "28efb2a fix: file mode builds the patch from the complete diff (C16)", "c62ee59 fix: pool parent loop leaves only when the done queue is drained (C12)"]
+FIX_COMMITS = ["5bfc12a fix: order_config word boundary (C08)", "943f14e fix: patch sort key (C08)", "1bcbbe1 fix: rewrite logic sends the new line ... (C01)", "28efb2a fix: file mode builds the patch from the complete diff (C16)", "c62ee59 fix: pool parent loop leaves only when the done queue is drained (C12)"]
 PENDING = {}
 CLAIMS = {
+    "C08": {
+        "technique": "TLA+ rank semantics of ordering rulebooks (Orderer.tla) over a TLA+ ordering catalogue (OrderCatalog.tla, domain assumption model-checked) + TLC-enumerated configurations replayed into make_patch / order_config; TLC trace judge incl. metamorphic independence",
+        "text": "For every catalogue (patching, ordering) rulebook pair and vendor profile, the real sorted PatchTree of all/sampled (old,new) pairs is judged at every depth: ranked siblings in rank order "
+                "(removals mirrored and first, %order_reverse pinned), removal before re-creation, multiset-equal to the unsorted patch; order_config on shuffled configurations: permutation, idempotent, "
+                "unmentioned rows stable, rank order; for the shipped *.order files dropping an unrelated top-level row must leave the order of the remaining commands unchanged.",
+        "note": "Claims only between ranked siblings of different rank and of the same origin (own rules vs inherited %global entries); unmentioned rows are compared within the same polarity. "
+                "No A-layer of get_order's weight heuristic (domain = disjoint sibling languages, where it cannot matter).",
+    },
     "C01": {
         "technique": "TLA+ device model (Device.tla) + rule language + TLC-enumerated Configs(R) of a TLA+ rulebook catalogue replayed into _diff_and_patch; real command paths executed on the spec's device by a TLC trace judge, chains and second diff fed back from TLC's state",
         "text": "For every catalogue rulebook (literals, *, ~, nesting, %global, %ordered, %rewrite, undo_redo/permanent/ignore_changes, catch-all, near-miss negation words) and vendor profile, "
